@@ -1737,6 +1737,15 @@ impl<F: VfsFile> BPlusTree<F> {
 		Ok(())
 	}
 
+	/// Number of keys of the node at `offset`.
+	fn key_count(&mut self, offset: u64) -> Result<usize> {
+		Ok(match self.read_node(offset)?.as_ref() {
+			NodeType::Internal(node) => node.keys.len(),
+			NodeType::Leaf(node) => node.keys.len(),
+			NodeType::Overflow(_) => return Err(BPlusTreeError::UnexpectedOverflowPage(offset)),
+		})
+	}
+
 	// Function to handle underflow in both internal and leaf nodes
 	fn handle_underflow(
 		&mut self,
@@ -1757,6 +1766,13 @@ impl<F: VfsFile> BPlusTree<F> {
 			None
 		};
 
+		// A redistribution can decline without doing anything (the new separator would
+		// not fit into the parent, or nothing would improve). Returning then left the
+		// child as it was - possibly with no key at all, a leaf that cursors stop at.
+		// Whether something happened shows in the child's key count; if nothing did,
+		// go on to the other sibling and to merging.
+		let keys_before = self.key_count(parent.children[child_idx])?;
+
 		// Try to borrow from left sibling first
 		if let Some(ref left_arc) = left_sibling_node {
 			if is_internal {
@@ -1771,7 +1787,9 @@ impl<F: VfsFile> BPlusTree<F> {
 							&mut left_node_mut,
 							&mut right_node_mut,
 						)?;
-						return Ok(());
+						if self.key_count(parent.children[child_idx])? != keys_before {
+							return Ok(());
+						}
 					}
 				}
 			} else if let NodeType::Leaf(left_node) = left_arc.as_ref() {
@@ -1784,7 +1802,9 @@ impl<F: VfsFile> BPlusTree<F> {
 						&mut left_node_mut,
 						&mut right_node_mut,
 					)?;
-					return Ok(());
+					if self.key_count(parent.children[child_idx])? != keys_before {
+						return Ok(());
+					}
 				}
 			}
 		}
@@ -1803,7 +1823,9 @@ impl<F: VfsFile> BPlusTree<F> {
 							&mut left_node_mut,
 							&mut right_node_mut,
 						)?;
-						return Ok(());
+						if self.key_count(parent.children[child_idx])? != keys_before {
+							return Ok(());
+						}
 					}
 				}
 			} else if let NodeType::Leaf(right_node) = right_arc.as_ref() {
@@ -1816,7 +1838,9 @@ impl<F: VfsFile> BPlusTree<F> {
 						&mut left_node_mut,
 						&mut right_node_mut,
 					)?;
-					return Ok(());
+					if self.key_count(parent.children[child_idx])? != keys_before {
+						return Ok(());
+					}
 				}
 			}
 		}
